@@ -194,6 +194,7 @@ func (s *Sched) Run() bool {
 		// wait until no thread is running; a thread that waits for a lock held by a
 		// parked thread is not running either (detected from its goroutine status)
 		waited := 0
+		revalidated := false
 		for {
 			s.mu.Lock()
 			busy := false
@@ -207,15 +208,17 @@ func (s *Sched) Run() bool {
 				}
 			}
 			s.mu.Unlock()
-			if anyBlocked && waited == 0 {
-				// re-validate: the holder may have released the lock during its last step
-				s.refreshBlocked()
-				waited++
-				continue
-			}
 			if !busy {
+				if anyBlocked && !revalidated {
+					// re-validate before deciding: the holder may have released the lock during the
+					// step that just ended (however long that step took)
+					s.refreshBlocked()
+					revalidated = true
+					continue
+				}
 				break
 			}
+			revalidated = false // a thread is running: what is known about lock waits can go stale
 			select {
 			case <-s.wake:
 			case <-time.After(time.Millisecond):
@@ -281,6 +284,19 @@ func (s *Sched) Run() bool {
 					st := ""
 					for n, t := range s.threads {
 						st += fmt.Sprintf(" %s=%d", n, t.st)
+					}
+					if os.Getenv("VERIF_DEBUG_SCHED") == "2" {
+						buf := make([]byte, 1<<22)
+						buf = buf[:runtime.Stack(buf, true)]
+						for _, t := range s.threads {
+							if t.st == blocked {
+								for _, blk := range bytes.Split(buf, []byte("\n\n")) {
+									if bytes.HasPrefix(blk, []byte(fmt.Sprintf("goroutine %d ", t.goid))) {
+										fmt.Fprintf(os.Stderr, "BLOCKED %s:\n%s\n", t.name, blk)
+									}
+								}
+							}
+						}
 					}
 					fmt.Fprintf(os.Stderr, "INFEASIBLE step=%d want=%s enabled=%v states:%s prefix=%v trace-tail=%v\n", step, pick, enabled, st, s.Prefix, tail(s.Trace, 4))
 				}
